@@ -267,6 +267,15 @@ func (ds *dataSet) TruncateGap() (*dataSetRdb, []*dataSetAof) {
 		}
 	}
 
+	// The snapshot is the entry point of the stream only if the first kept
+	// segment starts where the snapshot ends; otherwise the offsets in between
+	// are not held (e.g. the process died while resetDataSet was removing the
+	// files in lexical order) and the snapshot must not extend the range.
+	if ds.rdb != nil && len(ds.aofSegs) > 0 && ds.rdb.left != ds.aofSegs[0].left {
+		rdb = ds.rdb
+		ds.rdb = nil
+	}
+
 	ds.aofMap = make(map[int64]*dataSetAof)
 	for _, a := range ds.aofSegs {
 		ds.aofMap[a.left] = a
